@@ -51,6 +51,11 @@ def generate(rng, opts):
                                                       "keys": infos[0]["keys"]}
         events.append({"e": "op", "slot": slot, "op": O.gen_op(r, info, nslots, enabled)})
         nslots += 1
+    # allocation failures: the k-th allocation inside the operation throws std::bad_alloc (once)
+    p_alloc = r.choice([0.0, 0.0, 0.1, 0.3])
+    for e in events:
+        if e["e"] == "op" and r.random() < p_alloc:
+            e["alloc_fail"] = r.choice([0, 0, 1, 2, 3, 4, 6, 9, 14, 22, 40])
     corrupt = None
     if r.random() < opts.get("pool_corrupt_rate", 0.2):
         corrupt = {"root": r.randrange(nroots), "buf": r.randrange(64), "item": r.randrange(64),
@@ -103,6 +108,8 @@ def operand_facts(node, h, op):
 
 
 def execute(node, case, rec, opts):
+    if "_alloc_seam" not in opts:
+        opts["_alloc_seam"] = node.alloc_supported()     # false on the sanitizer node (its own operator new wins)
     slots = []
     realized = []
     for ri, root in enumerate(case["roots"]):
@@ -181,7 +188,8 @@ def execute(node, case, rec, opts):
             if i < len(slots) and slots[i].alive:
                 try:
                     txt = node.text(slots[i].h, TEXTS[ev["what"]])
-                    rec.ev(t, "text", ev["what"], len(txt) if corrupted else txt.decode("latin-1")[:200] if ev["what"] != "tostring" else len(txt))
+                    # (tostring prints buffer addresses, whose number of digits varies from process to process: its length is not logged)
+                    rec.ev(t, "text", ev["what"], bool(txt) if corrupted or ev["what"] == "tostring" else txt.decode("latin-1")[:200])
                 except NodeError as x:
                     if x.cls not in ORDINARY:
                         raise Violation("robustness", "non_ordinary_exception", {"event": ev, "error": [x.cls, x.msg[:200]]}, at=t)
@@ -230,14 +238,22 @@ def execute(node, case, rec, opts):
         tmp = []
         dig = []
 
+        k_fail = ev.get("alloc_fail") if opts.get("_alloc_seam") else None
+
         def before():
             dig.append(node.digest_bufs())
+            if k_fail is not None:
+                node.alloc_arm(k_fail)
         try:
             h = O.apply(node, op, slots[i].h, slot_handle, tmp, before)
             raised = None
         except NodeError as x:
             h = None
             raised = x
+        fired = False
+        if k_fail is not None:
+            fired, seen = node.alloc_disarm()
+            rec.ev(t, "alloc", k_fail, fired)
         after = node.digest_bufs()
         if dig and dig[0] != after:
             raise Violation("purity", "input_bytes_modified", {"event": ev, "slot": i, "alive_buffers": [dig[0][1], after[1]]}, at=t)
@@ -246,6 +262,46 @@ def execute(node, case, rec, opts):
                 node.drop(x)
             except Exception:
                 pass
+        if fired:
+            # the operation met an allocation failure: it may raise (any std::exception), it must not crash, modify its
+            # inputs (checked above) or leave the library unusable - the same operation is issued again, unfaulted,
+            # and takes the place of the faulted one in the history (recovery once the fault has stopped)
+            rec.fault("allocation_failure")
+            if raised is not None and raised.cls not in ORDINARY:
+                raise Violation("robustness", "non_ordinary_exception", {"event": ev, "error": [raised.cls, raised.msg[:300]]}, at=t)
+            first = None
+            if raised is None:
+                rec.probe("allocation_failure_survived_by_the_operation")
+                try:
+                    first = ("value", read_value(node, h))
+                except NodeError as x:
+                    first = ("unreadable", x.cls)
+                try:
+                    node.drop(h)
+                except Exception:
+                    pass
+            tmp = []
+            try:
+                h = O.apply(node, op, slots[i].h, slot_handle, tmp)
+                raised = None
+            except NodeError as x:
+                h = None
+                raised = x
+            for x in tmp:
+                try:
+                    node.drop(x)
+                except Exception:
+                    pass
+            if first is not None and raised is None:
+                try:
+                    again = ("value", read_value(node, h))
+                except NodeError as x:
+                    again = ("unreadable", x.cls)
+                if first[0] != again[0] or (first[0] == "value" and not vm.same(first[1], again[1])):
+                    raise Violation("robustness", "allocation_failure_gave_another_result",
+                                    {"event": ev, "with_failure": first[1] if first[0] != "value" else vm.to_jsonable(first[1]),
+                                     "without": again[1] if again[0] != "value" else vm.to_jsonable(again[1])}, at=t)
+            rec.probe("recovered_after_allocation_failure")
         if raised is not None:
             if raised.cls not in ORDINARY:
                 raise Violation("robustness", "non_ordinary_exception", {"event": ev, "error": [raised.cls, raised.msg[:300]]}, at=t)
@@ -516,6 +572,10 @@ ASSUMPTIONS = [
     "operation); results that depend on uninitialised or freed memory are caught by running the same seeds under "
     "three allocator fill bytes (glibc M_PERTURB) and, in the thorough tier, under AddressSanitizer",
     "only the C++ Content API is exercised (the ak.* Python layer cannot be built here)",
+    "allocation failures: the node's operator new is replaced (native/awsim_core.cpp); armed with k, the k-th C++ allocation "
+    "inside one operation throws std::bad_alloc once. Any std::exception is an acceptable answer; crashing, modified "
+    "inputs, or a different result when the operation is repeated are not. The seam is suspended while the harness "
+    "reports an error, and does not exist on the sanitizer node (the sanitizer's operator new wins)",
 ]
 COMPONENTS = {"real": ["src/cpu-kernels/*.cpp", "src/libawkward/array/*.cpp", "Content/Slice/Reducer/Index", "util::handle_error",
                        "kernel::malloc"],
@@ -528,7 +588,7 @@ RULE = ("one run = 1..3 valid root layouts generated from a random type with an 
         "stored-index corruption. distinct = hash of (node classes of the roots, op-class sequence, corruption yes/no); "
         "non-trivial = at least 3 events")
 REQUIRED_PROBES = {"quick": ["operation_returned", "operation_raised", "live_value_reread", "print_or_convert",
-                             "check_print_convert_on_corrupted"],
+                             "check_print_convert_on_corrupted", "recovered_after_allocation_failure"],
                    "thorough": ["operation_returned", "operation_raised", "live_value_reread", "print_or_convert",
                                 "check_print_convert_on_corrupted"]}
 
